@@ -325,3 +325,120 @@ func (b *Body) resolverDecides(l *Ledger) {
 		l.add("R-TOKEN", b.Name, "resolver: who decides", "", Undecided, "no function answering (container, key) found", false)
 	}
 }
+
+// indexSyntax (R-TOKEN): a reference token is an array index only in RFC 6901's spelling —
+// "0", or digits that do not begin with "0" — plus this library's negative indices. The
+// standard conversions accept more ("+1", "01", "-0", "0x1" with base 0): with them a member
+// name that merely converts is taken for an index, so `add /a/+1` under EnsurePathExistsOnAdd
+// creates an array where the property wants an object, and `/a/01` addresses element 1 where
+// RFC 6902 evaluation fails. Every integer conversion of a token must therefore be followed by
+// a check that the number, written back, is the token — with the failing edge an error.
+func (b *Body) indexSyntax(l *Ledger) {
+	n := 0
+	for _, fn := range b.srcFuncs(b.Lib) {
+		k := 0
+		allInstrs(fn, func(i ssa.Instruction) {
+			call, ok := i.(*ssa.Call)
+			if !ok {
+				return
+			}
+			f := call.Call.StaticCallee()
+			if f == nil || f.Pkg == nil || f.Pkg.Pkg.Path() != "strconv" || (f.Name() != "Atoi" && f.Name() != "ParseInt" && f.Name() != "ParseUint") {
+				return
+			}
+			tok := call.Call.Args[0]
+			n++
+			k++
+			key := fmt.Sprintf("%s: integer conversion #%d of a reference token accepts only RFC 6901's index spelling", b.canonFname(fn), k)
+			var num ssa.Value
+			for _, ex := range extractOf(call, 0) {
+				num = ex
+			}
+			ok2 := false
+			why := "the result of " + f.Name() + " is used without a check that it spells the token: \"+1\", \"01\" and \"-0\" convert, so a member name is taken for an index (an array is created where an object is due; an element is addressed where RFC 6902 evaluation fails)"
+			if num != nil {
+				for _, bb := range fn.Blocks {
+					iff, isIf := lastInstr(bb).(*ssa.If)
+					if !isIf {
+						continue
+					}
+					bo, isBo := iff.Cond.(*ssa.BinOp)
+					if !isBo || (bo.Op != token.EQL && bo.Op != token.NEQ) {
+						continue
+					}
+					for _, pr := range [][2]ssa.Value{{bo.X, bo.Y}, {bo.Y, bo.X}} {
+						fc, isCall := pr[0].(*ssa.Call)
+						if !isCall || pr[1] != tok {
+							continue
+						}
+						g := fc.Call.StaticCallee()
+						if g == nil || g.Pkg == nil || g.Pkg.Pkg.Path() != "strconv" || (g.Name() != "Itoa" && g.Name() != "FormatInt") {
+							continue
+						}
+						if a0 := unwrapConv(fc.Call.Args[0]); a0 != num {
+							continue
+						}
+						uneq := 0
+						if bo.Op == token.EQL {
+							uneq = 1
+						}
+						if b.rejects(bb.Succs[uneq]) {
+							ok2 = true
+							why = "strconv.Itoa(result) is compared with the token at " + b.posOf(iff) + " and the unequal edge returns an error"
+						}
+					}
+				}
+			}
+			v := Discharged
+			if !ok2 {
+				v = Violated
+			}
+			l.add("R-TOKEN", b.Name, key, b.posOf(call), v, why, true)
+		})
+	}
+	if n == 0 {
+		l.add("R-TOKEN", b.Name, "index syntax: integer conversions of reference tokens", "", Undecided, "no strconv conversion found in the library body", false)
+	}
+}
+
+
+// isIndexParser: strconv.Atoi, or a library function (string) (int, error) built on it — the
+// token is converted with Atoi and the number returned (after whatever syntax check).
+func (b *Body) isIndexParser(f *ssa.Function) bool {
+	if f == nil {
+		return false
+	}
+	if stdName(f) == "strconv.Atoi" {
+		return true
+	}
+	if f.Pkg != b.Lib || len(f.Blocks) == 0 || f.Signature.Recv() != nil || len(f.Params) != 1 || !isStringType(f.Params[0].Type()) {
+		return false
+	}
+	res := f.Signature.Results()
+	if res.Len() != 2 || !isErrorType(res.At(1).Type()) {
+		return false
+	}
+	if bt, ok := res.At(0).Type().Underlying().(*types.Basic); !ok || bt.Kind() != types.Int {
+		return false
+	}
+	var atoi *ssa.Call
+	allInstrs(f, func(i ssa.Instruction) {
+		if c, ok := i.(*ssa.Call); ok && stdName(c.Call.StaticCallee()) == "strconv.Atoi" && c.Call.Args[0] == ssa.Value(f.Params[0]) {
+			atoi = c
+		}
+	})
+	if atoi == nil {
+		return false
+	}
+	// every return with a nil error hands back the converted number itself
+	for _, r := range returnsOf(f) {
+		if b.definitelyNonNilErr(r.Results[1], r.Block(), 0) {
+			continue
+		}
+		ex, ok := r.Results[0].(*ssa.Extract)
+		if !ok || ex.Tuple != ssa.Value(atoi) || ex.Index != 0 {
+			return false
+		}
+	}
+	return true
+}
